@@ -30,6 +30,8 @@ const baseText = `module a { namespace "urn:a"; prefix a;
  container u1 { uses g; } container u2 { uses g; }
  rpc r { input { leaf i { type string; default id; } } }
  container input { leaf output { type string; default od; } leaf config { type string; } }
+ typedef td { type int8; default 50; } typedef ts { type string; default none; }
+ leaf lt { type td; } leaf-list llt { type ts; }
 }`
 
 // a second module grafts nodes into a: deviations of augmented nodes
@@ -42,7 +44,9 @@ var baseFiles = []dump.File{{Name: "a.yang", Text: baseText}, {Name: "g.yang", T
 
 var targets = []string{"l", "n", "m", "ll", "li", "c", "c/x", "c/cc/y", "ch", "ad", "u1/gl", "u1/gll", "u1/gli", "r/input/i", "r/input", "nope", "c/nope", "c/g:ay", "c/g:all", "u1/g:ac/g:az", "ul", "uli", "uli/v",
 	// nodes named like statement keywords: a container called input with a leaf called output, outside any rpc
-	"input", "input/output"}
+	"input", "input/output",
+	// a leaf and a leaf-list whose default comes from their type's typedef
+	"lt", "llt"}
 
 type prop struct{ K, V string }
 type deviate struct {
@@ -132,6 +136,25 @@ type node struct {
 	typ       string
 	min, max  uint64
 	gone      bool
+	eff       []string // the default in effect (DefaultValues): the node's own, else the type's
+}
+
+// typedefDefault: the defaults the base module's typedefs give, by the names a deviation spells them.
+var typedefDefault = map[string]string{"td": "50", "a:td": "50", "ts": "none", "a:ts": "none"}
+
+// effective: the node's own default wins; else the default of its type's typedef, unless the node
+// is mandatory or must have elements.
+func effective(n *node) []string {
+	if len(n.def) > 0 {
+		return n.def
+	}
+	if (n.kind == "leaf" && n.mand == "true") || (n.kind == "leaf-list" && n.min > 0) {
+		return nil
+	}
+	if d, ok := typedefDefault[n.typ]; ok && (n.kind == "leaf" || n.kind == "leaf-list") {
+		return []string{d}
+	}
+	return nil
 }
 
 func tri(t yang.TriState) string {
@@ -154,6 +177,9 @@ func observe(e *yang.Entry) *node {
 	}
 	if e.ListAttr != nil {
 		n.min, n.max = e.ListAttr.MinElements, e.ListAttr.MaxElements
+	}
+	if n.kind == "leaf" || n.kind == "leaf-list" {
+		n.eff = e.DefaultValues()
 	}
 	return n
 }
@@ -189,6 +215,7 @@ func apply(n *node, d deviate, dc map[string]bool) (mustErr bool) {
 				dc["cfg"], dc["err"] = true, true
 			}
 		case "mandatory":
+			dc["eff"] = true // whether a deviated mandatory silences the type's default: the statement does not say
 			if n.kind != "leaf" && n.kind != "choice" && n.kind != "anydata" {
 				dc["mand"], dc["err"] = true, true
 			}
@@ -260,8 +287,9 @@ func apply(n *node, d deviate, dc map[string]bool) (mustErr bool) {
 			if d.Kind == "add" {
 				dc["err"] = true // a leaf always has a type: adding one is invalid; the statement only asks that the value shows
 			}
-			n.typ = p.V
+			n.typ = strings.TrimPrefix(p.V, "a:") // the resolved type goes by the typedef's own name
 		case "min-elements", "max-elements":
+			dc["eff"] = true
 			if !isList {
 				return true // element bounds on a non-list
 			}
@@ -330,6 +358,12 @@ func diff(want, got *node, dc map[string]bool) []string {
 	}
 	if !dc["typ"] && want.typ != got.typ {
 		d = append(d, fmt.Sprintf("type=%q want %q", got.typ, want.typ))
+	}
+	// the default in effect follows the deviated default and the deviated type
+	if !dc["typ"] && !dc["def"] && !dc["eff"] && (want.kind == "leaf" || want.kind == "leaf-list") {
+		if we := effective(want); fmt.Sprint(we) != fmt.Sprint(got.eff) {
+			d = append(d, fmt.Sprintf("DefaultValues()=%v want %v", got.eff, we))
+		}
 	}
 	if !dc["min-elements"] && want.min != got.min {
 		d = append(d, fmt.Sprintf("min-elements=%d want %d", got.min, want.min))
@@ -653,7 +687,7 @@ func checkOrder(in Input, reverse bool) (f *fail, wantErr bool) {
 
 var singleProps = []prop{{"config", "true"}, {"config", "false"}, {"default", "d"}, {"default", "e"}, {"default", "gd"}, {"default", "4"}, {"mandatory", "true"}, {"mandatory", "false"},
 	{"min-elements", "0"}, {"min-elements", "1"}, {"min-elements", "3"}, {"max-elements", "5"}, {"max-elements", "9"}, {"max-elements", "2"}, {"max-elements", "unbounded"},
-	{"units", "v"}, {"type", "int8"}, {"type", "nosuch"}}
+	{"units", "v"}, {"type", "int8"}, {"type", "nosuch"}, {"type", "a:td"}, {"type", "a:ts"}}
 
 func deviates() []deviate {
 	ds := []deviate{{Kind: "not-supported"}, {Kind: "bogus"}}
